@@ -245,6 +245,23 @@ def case_dataset_and_model_weight(case):
     return core.ok(key=["ds+model", case["axis"], case["linked"], case.get("layout")], outcome=len(warns), violations=vs)
 
 
+def case_weight_combo(case):
+    """several model weights of different kinds on one dataset multiply, each on its own interval"""
+    spec = build_spec(case)
+    spec["weights"] = [dict(w, datasets=["d1"]) for w in case["weights"]]
+    try:
+        res, _ = optimize_spec(spec)
+    except Exception as e:  # noqa: BLE001
+        return core.ok(key=None, outcome="raised", violations=[V("weight-combination-raised", exc=repr(e)[:200])])
+    got = res.data["d1"]["weight"].transpose("time", "spectral").values
+    want, _ = S.reference_weights(spec, spec["datasets"][0])
+    vs = []
+    if want is None or got.shape != want.shape or not np.array_equal(got, want):
+        vs.append(V("combined-model-weights-differ-from-product-of-weights", weights=case["weights"],
+                    wrong_entries=int(np.sum(got != want)) if want is not None and got.shape == want.shape else -1))  # fmt: skip
+    return core.ok(key=case["weights"], outcome=len(vs), violations=vs)
+
+
 def case_applies(case):
     """IntervalItem.applies / OnlyConstraint.applies against closed, order-insensitive membership"""
     from glotaran.model.clp_constraint import OnlyConstraint
@@ -292,7 +309,7 @@ def case_yml_interval(case):
     return core.ok(key=[case["type"], case["interval"]], outcome=len(vs), violations=vs)
 
 
-CASE_FUNCS = {"interval": case_interval, "ds_model_weight": case_dataset_and_model_weight, "applies": case_applies,
+CASE_FUNCS = {"interval": case_interval, "weight_combo": case_weight_combo, "ds_model_weight": case_dataset_and_model_weight, "applies": case_applies,
               "yml_interval": case_yml_interval}  # fmt: skip
 
 
@@ -350,6 +367,17 @@ def run(run: core.Run):
                                   "intervals": [[enc(axis[0]), enc(axis[0])]]})  # fmt: skip
     run.map("interval", cases)
     monotonicity(run, "interval")
+    # combinations of two model weights (bounds on axis points so that the reference slice is unambiguous)
+    wc = []
+    items = [{"value": 3.0}, {"global_interval": [2.0, 4.0], "value": 0.25}, {"global_interval": [1.0, "inf"], "value": 0.5},
+             {"model_interval": [0.3, 1.7], "value": 2.0}, {"model_interval": ["-inf", 0.8], "value": 1.5},
+             {"global_interval": [3.0, 3.0], "model_interval": [0.0, 0.3], "value": 0.125}]  # fmt: skip
+    for a, b in itertools.permutations(items, 2):
+        for linked in (False, True):
+            wc.append({"axis": "uniform5", "linked": linked, "weights": [a, b], "seed": run.seed})
+    for a, b, c in itertools.permutations(items[:4], 3):
+        wc.append({"axis": "uniform5", "linked": False, "weights": [a, b, c], "seed": run.seed})
+    run.map("weight_combo", wc)
     dm = [{"axis": ax, "linked": l, "layout": lay, "seed": run.seed} for ax in axes for l in (False, True) for lay in ("mg", "gm")]
     run.map("ds_model_weight", dm)
     ap = []
